@@ -113,6 +113,8 @@ def alphabet(kind):
     ops = ["set:" + p for p in observe.settable_properties(cls)]
     ops += ["bad:" + p for p in observe.settable_properties(cls) if p not in ("center", "centroid")]
     ops += [m for m in METHOD_OPS if hasattr(cls, m)]
+    if hasattr(cls, "vertices") and "centroid" in observe.settable_properties(cls):
+        ops.append("selfview:centroid")
     ops += READ_OPS
     if kind in ("ConvexSpheropolyhedron", "ConvexSpheropolygon"):
         # the core polytope is publicly reachable (.polyhedron / .polygon) and mutable
@@ -205,6 +207,22 @@ def step(rec, obj, op, arg, sig, state):
         rec.check(isinstance(r, Raised) and r.type == "ValueError", "failing_op_raises_ValueError", dict(sig, op=op), got=repr(r)[:80])
         unchanged("after_failed_op")
         return True, False
+    if op.startswith("selfview:"):
+        # the target is handed over as a row view of the shape's own vertex array (`s.centroid = s.vertices[k]`):
+        # the value meant is the one the row holds at the time of the call
+        verts = call(getattr, obj, "vertices")
+        if isinstance(verts, Raised) or not isinstance(verts, np.ndarray):
+            return False, False
+        view = verts[arg % len(verts)]
+        target = np.array(view, dtype=float)
+        size = _scale_of(obj)
+        r = call(setattr, obj, name, view)
+        if isinstance(r, Raised):
+            rec.fail("valid_op_raised", dict(sig, op=op, type=r.type), msg=r.msg)
+            return True, True
+        got = call(getattr, obj, name)
+        rec.close("centre_read_back", got, target, 1e-9 * (size + np.linalg.norm(target)), dict(sig, op=op))
+        return True, True
     if op.startswith("set:") or op.startswith("bad:"):
         cur = call(getattr, obj, name)
         if isinstance(cur, Raised):
@@ -212,10 +230,15 @@ def step(rec, obj, op, arg, sig, state):
         if name in ("center", "centroid"):
             size = _scale_of(obj)
             target = np.array(CENTRES[arg % len(CENTRES)]) * (0.3 * state["size0"])
-            r = call(setattr, obj, name, target.copy())
+            passed = target.copy()
+            r = call(setattr, obj, name, passed)
             if isinstance(r, Raised):
                 rec.fail("valid_op_raised", dict(sig, op=op, type=r.type), msg=r.msg)
                 return True, True
+            # the caller's array stays the caller's: it is unchanged now, and what the caller does with it afterwards
+            # is none of the shape's business (a shape that kept it would drift away from its own vertices)
+            rec.check(np.array_equal(passed, target), "centre_argument_unchanged", dict(sig, op=op))
+            passed += 0.37 * state["size0"]
             got = call(getattr, obj, name)
             rec.close("centre_read_back", got, target, 1e-9 * (size + np.linalg.norm(target)), dict(sig, op=op))
             return True, True
